@@ -6,8 +6,10 @@ import (
 	"encoding/json"
 	"fmt"
 	mrand "math/rand"
+	"reflect"
 	"runtime"
 	"sort"
+	"strings"
 	"time"
 
 	"verifharness/mon"
@@ -338,6 +340,103 @@ func reentrantCollaborators(x *mon.Ctx, class string, honest, reject *world.Case
 			}
 			if prob != "" {
 				x.Violation(class, param, prob, "none", param)
+			}
+			x.Note(class, param, false, pv != "", prob == "")
+			n++
+		}
+	}
+}
+
+// knownVerifyOptions are the exported members of verify.Options on the tree the workloads were written for.
+var knownVerifyOptions = map[string]bool{"CheckRevocations": true, "GetCollateral": true, "Getter": true, "Now": true, "TrustedRoots": true}
+
+// tcbStatusNames are the seven status names of the PCS API.
+var tcbStatusNames = []string{"UpToDate", "SWHardeningNeeded", "ConfigurationNeeded", "ConfigurationAndSWHardeningNeeded", "OutOfDate", "OutOfDateConfigurationNeeded", "Revoked"}
+
+// fillUnknownMember gives a member this workload knows nothing about the most permissive-looking non-zero value of its kind:
+// true, the largest number, every status name the PCS API has (for strings and lists of strings), bytes, a non-nil pointer.
+func fillUnknownMember(f reflect.Value) bool {
+	switch f.Kind() {
+	case reflect.Bool:
+		f.SetBool(true)
+	case reflect.Int, reflect.Int8, reflect.Int16, reflect.Int32, reflect.Int64:
+		f.SetInt(1<<(uint(f.Type().Bits())-1) - 1)
+	case reflect.Uint, reflect.Uint8, reflect.Uint16, reflect.Uint32, reflect.Uint64:
+		f.SetUint(1<<uint(f.Type().Bits()) - 1)
+	case reflect.String:
+		f.SetString(strings.Join(tcbStatusNames, ","))
+	case reflect.Slice:
+		switch f.Type().Elem().Kind() {
+		case reflect.String:
+			s := reflect.MakeSlice(f.Type(), len(tcbStatusNames), len(tcbStatusNames))
+			for i, n := range tcbStatusNames {
+				s.Index(i).SetString(n)
+			}
+			f.Set(s)
+		case reflect.Uint8:
+			f.SetBytes(make([]byte, 48))
+		default:
+			return false
+		}
+	case reflect.Map:
+		if f.Type().Key().Kind() != reflect.String || f.Type().Elem().Kind() != reflect.Bool {
+			return false
+		}
+		m := reflect.MakeMap(f.Type())
+		for _, n := range tcbStatusNames {
+			m.SetMapIndex(reflect.ValueOf(n).Convert(f.Type().Key()), reflect.ValueOf(true).Convert(f.Type().Elem()))
+		}
+		f.Set(m)
+	case reflect.Ptr:
+		f.Set(reflect.New(f.Type().Elem()))
+	default:
+		return false
+	}
+	return true
+}
+
+// unknownOptionMembers: exported members of verify.Options that did not exist when the workloads were written (found by
+// reflection; none on the unchanged tree), each alone and all together set to a permissive-looking value of their kind. The
+// statements are unconditional: a quote that must be refused stays refused. Only the must-reject side is judged.
+func unknownOptionMembers(x *mon.Ctx, class string, rejects []*world.Case) {
+	t := reflect.TypeOf(verify.Options{})
+	var idx []int
+	for i := 0; i < t.NumField(); i++ {
+		if f := t.Field(i); f.PkgPath == "" && !knownVerifyOptions[f.Name] {
+			idx = append(idx, i)
+		}
+	}
+	x.Extra["verify_option_members_unknown_to_the_workload"] = len(idx)
+	if len(idx) == 0 {
+		return
+	}
+	sets := [][]int{}
+	for _, i := range idx {
+		sets = append(sets, []int{i})
+	}
+	sets = append(sets, idx)
+	n := 0
+	for si, set := range sets {
+		for _, c := range rejects {
+			o, _ := mon.Options(c)
+			name := ""
+			for _, i := range set {
+				if fillUnknownMember(reflect.ValueOf(o).Elem().Field(i)) {
+					name += t.Field(i).Name + "+"
+				}
+			}
+			if name == "" {
+				continue
+			}
+			var err error
+			pv, _ := mon.Guard(func() { err = verify.RawTdxQuote(c.Quote, o) })
+			param := fmt.Sprintf("%sset/%s/%s#%d", name, c.Class, c.Param, si)
+			prob := ""
+			if pv == "" && err == nil {
+				prob = "with the option member(s) " + strings.TrimSuffix(name, "+") + " set, a quote that must be refused (" + c.Class + "/" + c.Param + ") was reported as verified"
+			}
+			if prob != "" {
+				x.Violation(class, param, prob, "verify", c)
 			}
 			x.Note(class, param, false, pv != "", prob == "")
 			n++
